@@ -1,4 +1,4 @@
-SPECIFICATION GSpecSim
+SPECIFICATION SSpec
 CONSTANTS Targets = {1, 2}
           Tsizes = {0, 1, 2, 3, 4, 5, 6, 7}
           DataVals = {"nil", "empty", "x", "y"}
@@ -7,4 +7,4 @@ CONSTANTS Targets = {1, 2}
           NNames = 3
           Lean = FALSE
           D = 1000
-          E = 20
+          E = 1000
